@@ -270,6 +270,9 @@ def shard(items, p, b, r):
 
 
 def replay(case):
+    if case.get("part") == "width":
+        from harness.checks import c16
+        return c16.replay(case)
     found = {}
     st = core.Stats()
     prm = case["param"]
@@ -294,6 +297,10 @@ def run(ctx):
         # two-operand kinds are the expensive ones: spread round-robin
         jobs = [dict(items=items[i::16], p=p, b=b, r=r) for i in range(16)]
         total.merge_json(core.run_shards("harness.checks.c03", "shard", jobs).to_json())
+    # declared widths beyond a machine word in the real field (shared with C16: n bits come back; an (n+1)-bit value cannot
+    # satisfy what to_bits(n) / assert_positive(n) emit)
+    from harness.recorder import BN128
+    total.merge_json(core.run_shards("harness.checks.c16", "widths_shard", [dict(bs=[], p=BN128), dict(bs=[], p=BN128)][:1]).to_json())
     total.extra["configs"] = [list(c) for c in cfgs]
     ctx.stats = total
     ctx.exhaustive = True
